@@ -1453,8 +1453,12 @@ class GeoboxTiles:
         if not isinstance(src.base, GeoBox):
             return None
         # src_pix = A*dst_pix
-        A = snap_affine((~src.base.transform) * self.base.transform)
-        if is_affine_st(A):
+        A = (~src.base.transform) * self.base.transform
+        if is_affine_st(snap_affine(A)):
+            # Return un-snapped version: snapping moves things by up to 1e-3
+            # of a source pixel, when zooming in by 1000x or more that is a
+            # whole destination pixel, enough to miss a needed source chunk.
+            # Source boxes are rounded outwards anyway.
             return A
         return None
 
